@@ -27,12 +27,13 @@ type Oblig struct {
 	Src    string
 	Extra  []string
 	// filled by the solver stage
-	Result string
-	Solver string
-	Ms     int64
-	Model  string
-	Output string
-	File   string
+	Result  string
+	Solver  string
+	Ms      int64
+	Model   string
+	Output  string
+	File    string
+	noSplit bool
 }
 
 type State struct {
@@ -64,61 +65,63 @@ type writeRec struct {
 }
 
 type Gen struct {
-	W        *World
-	fn       *ssa.Function
-	fc       *FuncContract
-	short    string
-	decls    []string
-	declared map[string]bool
-	cons     []string
-	obls     []*Oblig
-	nfresh   int
-	compSort map[string]string
-	strs     map[string]string
-	typeIDs  map[string]int
-	entry    *State
-	notes    map[string]bool
-	trusted  map[string]bool
-	inlined  map[string]bool
-	errs     []string
-	dry      int
-	wCells   map[*ssa.Alloc]bool
-	wComps   map[string][]writeRec
-	wAlloc   bool
-	rangeDone map[string]bool
-	safetyN  map[string]int
-	siteN    map[string]int
-	panicsNever bool
-	stdTagUsed  bool
-	bytesSeen   map[string][][2]string // object array -> ranges whose content identity was mentioned
-	arrPrev     map[string]arrDelta // object arrays produced by a range-limited write: the array before and the written range
-	nonStdTags  map[int]bool
-	entryParams map[string]*Value
-	extraAxioms []string
-	usedSpec  map[string]bool
-	axiomsDone map[string]bool
-	globalsSeen map[string]bool
-	allWrites map[string][]writeRec
+	W             *World
+	fn            *ssa.Function
+	fc            *FuncContract
+	short         string
+	decls         []string
+	declared      map[string]bool
+	cons          []string
+	obls          []*Oblig
+	nfresh        int
+	compSort      map[string]string
+	strs          map[string]string
+	typeIDs       map[string]int
+	entry         *State
+	notes         map[string]bool
+	trusted       map[string]bool
+	inlined       map[string]bool
+	errs          []string
+	dry           int
+	wCells        map[*ssa.Alloc]bool
+	wComps        map[string][]writeRec
+	wAlloc        bool
+	rangeDone     map[string]bool
+	safetyN       map[string]int
+	siteN         map[string]int
+	panicsNever   bool
+	stdTagUsed    bool
+	addrTokens    map[string]*LValue
+	tokenAlias    []string               // merged names standing for "this token or nil"
+	bytesSeen     map[string][][2]string // object array -> ranges whose content identity was mentioned
+	arrPrev       map[string]arrDelta    // object arrays produced by a range-limited write: the array before and the written range
+	nonStdTags    map[int]bool
+	entryParams   map[string]*Value
+	extraAxioms   []string
+	usedSpec      map[string]bool
+	axiomsDone    map[string]bool
+	globalsSeen   map[string]bool
+	allWrites     map[string][]writeRec
 	loopWatermark int
-	phiConds   map[*ssa.BasicBlock][]string
+	phiConds      map[*ssa.BasicBlock][]string
 	havocAllLater bool
-	dryFacts   int
-	specDepth  int
-	specInfos  map[string]*specInfo
-	symStack   []*symHeap
-	symStates  []*State
-	specAxioms []string
-	entryReach string
-	exceptTerms map[string]string
-	recDefs []string
-	pathIDs map[string]int
-	ownOnly bool
-	privBoxes []*LValue
-	stableKeys map[string]bool
-	useTwin bool
-	heapAxioms []heapAxiom
-	heapSigs map[string]bool
-	heapSnaps []map[string]string
+	dryFacts      int
+	specDepth     int
+	specInfos     map[string]*specInfo
+	symStack      []*symHeap
+	symStates     []*State
+	specAxioms    []string
+	entryReach    string
+	exceptTerms   map[string]string
+	recDefs       []string
+	pathIDs       map[string]int
+	ownOnly       bool
+	privBoxes     []*LValue
+	stableKeys    map[string]bool
+	useTwin       bool
+	heapAxioms    []heapAxiom
+	heapSigs      map[string]bool
+	heapSnaps     []map[string]string
 }
 
 func newGen(w *World, fn *ssa.Function, fc *FuncContract) *Gen {
@@ -664,7 +667,49 @@ func (g *Gen) materialize(v *Value) (*Value, bool) {
 		g.note("addresses of struct fields stored in memory are opaque identities (loads through them are not linked to the field)")
 		return &Value{T: v.T, L: []string{fmt.Sprintf("(- 0 (+ (* %s 4096) %s))", lv.Obj, g.pathID(typeKey(lv.Root)+lv.Path))}}, true
 	}
+	if lv.Kind == lvElem && lv.ArrIdx == "" {
+		// address of a slice/array element: an opaque non-nil token remembered with its descriptor; a later
+		// dereference of a pointer term built from exactly one token (and nil) recovers the descriptor (lvOf)
+		tok := g.fresh("addr", sInt)
+		g.addCons(fmt.Sprintf("(< %s (- 4611686018427387904))", tok))
+		if g.addrTokens == nil {
+			g.addrTokens = map[string]*LValue{}
+		}
+		cp := *lv
+		g.addrTokens[tok] = &cp
+		return &Value{T: v.T, L: []string{tok}}, true
+	}
 	return v, false
+}
+
+var addrTokenRe = regexp.MustCompile(`addr![0-9]+`)
+
+// tokenLV: the descriptor behind a pointer term that mentions exactly one address token.
+func (g *Gen) tokenLV(t string) *LValue {
+	if len(g.addrTokens) == 0 {
+		return nil
+	}
+	for _, a := range g.tokenAlias {
+		if t == a {
+			cp := *g.addrTokens[a]
+			cp.Ptr = t
+			return &cp
+		}
+	}
+	var found string
+	for _, m := range addrTokenRe.FindAllString(t, -1) {
+		if found != "" && m != found {
+			return nil
+		}
+		found = m
+	}
+	lv, ok := g.addrTokens[found]
+	if !ok {
+		return nil
+	}
+	cp := *lv
+	cp.Ptr = t
+	return &cp
 }
 
 // entryReachable: the term is an input or a chain of reads from components that have not been written
